@@ -64,7 +64,10 @@ def run_impl(case, strategy, parts, faults, tag):
     d = os.path.join(core.SCRATCH, f"c18_{tag}_{os.getpid()}"); shutil.rmtree(d, ignore_errors=True); os.makedirs(d)
     script = os.path.join(d, "script"); open(script, "w").write("\n".join(case) + "\n")
     env = dict(core.ENV, NVH_DIR=d, NUN_S3_API_URL=st.url(), NUN_S3_NUMBER_OF_PARTITIONS=str(parts), NUN_S3_RETRY="2")
-    if strategy != "disk": env["NUN_STORAGE_STRATEGY"] = strategy
+    # how the strategy is chosen: the single option, or the split read / write options (with the general one left at its default)
+    if strategy.endswith("@split"):
+        env["NUN_STORAGE_READ_STRATEGY"] = strategy.split("@")[0]; env["NUN_STORAGE_WRITE_STRATEGY"] = strategy.split("@")[0]
+    elif strategy != "disk": env["NUN_STORAGE_STRATEGY"] = strategy
     try:
         p = subprocess.run([core.NVH, "run", script], env=env, stdout=subprocess.PIPE, stderr=subprocess.PIPE, text=True, timeout=300)
         out = [l for l in p.stdout.split("\n") if l and not l.startswith("@ ")]
@@ -174,6 +177,10 @@ def main(tier, seed):
             for (strategy, parts, faults) in fault_cfgs: jobs.append((c, strategy, parts, faults, True))
     for c in multi:
         for (strategy, parts, faults) in configs: jobs.append((c, strategy, parts, faults, False))
+    # the same store selected through the split options
+    for ci, c in enumerate(H):
+        if ci % (12 if tier == "quick" else 3) == 0:
+            for (strategy, parts) in (("s3@split", 1), ("s3_patition@split", 3)): jobs.append((c, strategy, parts, {}, False))
     disk_cache = {}
     def disk_of(c, tag):
         key = "\n".join(c)
@@ -220,7 +227,7 @@ def main(tier, seed):
         hashes.add((r["strategy"], r["parts"], r["hash"]))
         if r["dis"]: disagreements.append(r)
         for f in r["fails"]:
-            f.case = [f"# strategy={r['strategy']} partitions={r['parts']} faults={r['faults']}"] + r["case"]; f.cls = f"{f.cls}:{r['strategy']}"; failures.append(f)
+            f.case = [f"# strategy={r['strategy']} partitions={r['parts']} faults={r['faults']}"] + r["case"]; f.cls = f"{f.cls}:{r['strategy'].split('@')[0]}"; failures.append(f)
     for k in known:
         if k["status"] == "known":
             if any(f.cls == k["class"] for f in failures): print(f"KNOWN-FINDING: property={PID} {k['what']}")
@@ -250,7 +257,7 @@ def main(tier, seed):
                obligation_list=[dict(name=o[0], ok=o[1], detail=o[2]) for o in obligations],
                evaluations=len(results), distinct_nontrivial=len(hashes),
                rule=("operation / snapshot (incremental and space-reclaiming) / restart histories over one database (sets incl. multi-word and multi-byte values, removes, increments, versioned writes): all sequences of length L from an alphabet of 11 steps that contain a snapshot, plus seeded random longer ones, "
-                     "each run through the REAL storage code against an in-process S3 stub for strategy s3 and s3_patition with 1, 3 and 10 partitions, and for a subset with faults (first PUT fails once, a PUT fails always, first GET fails once); the same history under the disk strategy is the reference: "
+                     "each run through the REAL storage code against an in-process S3 stub for strategy s3 and s3_patition with 1, 3 and 10 partitions, for a subset with faults (first PUT fails once, a PUT fails always, first GET fails once), and for a subset with the store selected through the split options NUN_STORAGE_READ_STRATEGY / NUN_STORAGE_WRITE_STRATEGY instead of the single one; the same history under the disk strategy is the reference: "
                      "after the first restart the live keys, values, versions of EVERY user database and database t's id and strategy must agree; two-database histories include names related by prefix (t with t-old, t.v2, t2, t_old, tt; few / many keys both ways round). For strategy s3 the Lean model (s3Snapshot / s3LoadDb) runs the same history and every output line and the bytes of every stored object are compared. distinct by (strategy, partitions, trace hash)"),
                samples=[jobs[0][0][:14]], traces_validated_against_impl=len([r for r in results if r.get("strategy") == "s3" and not r.get("dis")]),
                disagreements=len(disagreements), oracle_failures=len(failures), failure_classes={c: len([f for f in failures if f.cls == c]) for c in {f.cls for f in failures}},
